@@ -274,6 +274,44 @@ pub fn run(ctx: &mut Ctx, o: &AttackOpts) {
                 m2.jwt = t;
                 go(ctx, &m2, false);
             }
+            // a resolver that chooses the key by the protected header's kid: the same payload signed (by the adversary, who
+            // holds both keys here) under either key, naming either kid, an unknown kid or none
+            {
+                let sib = match key {
+                    "K1" => "K2",
+                    "KE1" => "KE2",
+                    "S1" => "S2",
+                    "S2" => "S1",
+                    "KR1" => "KR2",
+                    "KR2" => "KR1",
+                    "KP1" => "KP2",
+                    _ => "K2",
+                };
+                let bykid = Resolver::ByKid(vec![("kid-a".to_string(), key.to_string()), ("kid-b".to_string(), sib.to_string())], key.to_string());
+                let p: Vec<&str> = m.jwt.split('.').collect();
+                for signer in [key, sib] {
+                    for kid in [Some("kid-a"), Some("kid-b"), Some("kid-zz"), None] {
+                        let h = match kid {
+                            Some(k) => json!({"alg": alg, "kid": k}),
+                            None => json!({"alg": alg}),
+                        };
+                        let msg_text = format!("{}.{}", b64(h.to_string().as_bytes()), p[1]);
+                        let sig = jsonwebtoken::crypto::sign(msg_text.as_bytes(), &crate::keys::enc(signer), alg.parse().unwrap()).unwrap();
+                        let jwt = format!("{}.{}", msg_text, sig);
+                        ctx.emit(crate::jt::obj(&[("ev", crate::jt::qs("AdvSign")), ("key", crate::jt::qs(signer)), ("alg", crate::jt::qs(alg)), ("id", crate::jt::qs(&jwt))]));
+                        let mut m2 = m.clone();
+                        m2.jwt = jwt;
+                        m2.kb = None;
+                        for f in [fmt, fmt.other()] {
+                            let raw = msg::render(&m2, f, JsonVariant::KbAbsent);
+                            verify(ctx, &VerifyArgs { raw: &raw, fmt: f, res: &bykid, aud: None, nonce: None, pair: 0, expect: NONE.to_string() });
+                        }
+                    }
+                }
+                // the issuer's own token (no kid) under the same resolver: the default key applies
+                let raw = msg::render(&m, fmt, JsonVariant::KbAbsent);
+                verify(ctx, &VerifyArgs { raw: &raw, fmt, res: &bykid, aud: None, nonce: None, pair: 0, expect: NONE.to_string() });
+            }
             // algorithm confusion: header alg rewritten to HS*, signed with the resolver's PUBLIC key bytes as HMAC secret
             if crate::keys::family(key) != "HMAC" {
                 let p: Vec<&str> = m.jwt.split('.').collect();
